@@ -527,6 +527,8 @@ func checkC01(c *Ctx) {
 	checkReadBufferAlias(c, "R5")
 	c.Rule("R10", "however the request bytes are fragmented (shared with C10.R12): the line reader's returned line ends at (start of the searched window + index + 1)")
 	checkLineEndMatchesSearch(c, "R10")
+	c.Rule("R11", "a locally built reply stays intact until it is written (shared with C13.R11/C19.R11): the bytes of a pooled buffer are copied out of the function that gives the buffer back, never handed on as the reply")
+	checkPooledBytesEscape(c, "R11")
 	c.Rule("R9", "a reply stays intact until it is written (shared with C10.R11): the slab the decoded replies are cut from hands out every byte once - its cursor only advances or takes a fresh chunk")
 	checkSlabNeverRewinds(c, "R9")
 	c.Rule("R8", "one reply per request (shared with C02.R1): every request is completed exactly once on every path - a request completed twice (answered by a filter and still queued for a backend reply) shifts every later reply of that backend connection by one")
